@@ -101,7 +101,7 @@ let cmd_v0raw t =
   let (vp, vs) = read_oracle t in
   let bs = next_hex t in
   match v0_parse vp vs bs with
-  | None -> Printf.printf "res=err\n"
+  | None -> Printf.printf "res=none\n"
   | Some q ->
     let rs = v0_ser q in
     let again = match rs with
